@@ -15,7 +15,7 @@ func init() {
 		ruleC34)
 	register("C32", "Clauses decided: (a) the store is rolled back on every failure after it was changed: in cc/service.ModifyNamespace every path from the success edge of storeConn.UpdateNamespace to an exit returning a non-nil error passes rollbackNamespace, and in DelNamespace every failure exit after the store deletion passes a restore; (b) proxies are compensated after a partial commit: the functions reachable from rollbackNamespace include proxy.PrepareConfig and proxy.CommitConfig. Timeouts/retries, concurrent changes and the proxies' own two-slot manager are not covered.",
 		ruleC32)
-	register("C33", "Clause decided (confinement by construction): in models.LocalClient every path argument of an os file operation is, by SSA def-use, built only from lc.storagePath, lc.FileSuffix, filepath.Join/Dir of such values, directory-entry names of a confined directory and results of safeJoinPath; a raw string parameter never reaches a sink without passing safeJoinPath. That safeJoinPath itself is a correct sanitizer, symlinks, and the encryption round trip are not covered.",
+	register("C33", "Clause decided (confinement by construction): in models.LocalClient every path argument of an os file operation is, by SSA def-use, built only from lc.storagePath, lc.FileSuffix, filepath.Join/Dir of such values, directory-entry names of a confined directory and results of safeJoinPath; a raw string parameter never reaches a sink without passing safeJoinPath. Second clause (BD-C33): decrypting malformed data cannot index out of range: the index/slice expressions of util/crypto.DecryptECB and pkcs5UnPadding are proven in bounds for every ciphertext. That safeJoinPath itself is a correct sanitizer, symlinks, the block loop of cryptBlocks (needs divisibility reasoning) and the encryption round trip are not covered.",
 		ruleC33)
 	register("C10", "Clause decided: every rule type the control plane's validation accepts (keys of models.ruleVerifyFuncMapping plus the types Namespace.verifyShardRules accepts in its switch) has a constructor in the proxy's router (case constants of router.parseRuleSliceInfos that do not reject, plus the types NewRouter handles itself). Everything value-level (locations, slices, names, duplicates) is not covered.",
 		ruleC10)
